@@ -158,4 +158,23 @@ PROPS.update({
         assumptions=GRID_ASSUME),
 })
 
+PROPS.update({
+    'C19': dict(
+        level_text='Deductive proof over an instance-namespace model of TagLibrary (attribute read = instance __dict__ '
+                   'first, class second; strings as uninterpreted ids, so *every* name is covered): the representation '
+                   'invariant Tag_rep (names <-> ids bijection inside the dict, counter = number of tags, NONE = 0, no '
+                   'library method shadowed) is established by the constructor and preserved by add_tag; add_tag assigns '
+                   'the next unused id, rejects exactly the names it must and at most the names it may, rejected calls '
+                   'change nothing; get_tag_name / itemize / len / module-level lookups are mutual inverses and the '
+                   'module-level functions can always reach the methods (call-site obligation: not shadowed).',
+        level_note='Assumes CPython attribute resolution order as modelled; hasattr(type(lib), n) true for class-body '
+                   'names and object attributes, free otherwise; lookups by name on a *local* library are plain attribute '
+                   'access (no function to verify).',
+        functions=['Tags.TagLibrary.__init__', 'Tags.TagLibrary.add_tag', 'Tags.TagLibrary.get_tag_name',
+                   'Tags.TagLibrary.__len__', 'Tags.TagLibrary.itemize', 'Tags.add_tag', 'Tags.get_tag_name',
+                   'Tags.itemize', 'Tags.__getattr__'],
+        assumptions=['CPython attribute resolution: instance __dict__ before class attributes for non-data descriptors',
+                     'clients do not write the library internals (_tag_counter, _tag_names, __dict__) directly']),
+})
+
 NOT_APPLICABLE = {}
